@@ -5,6 +5,7 @@ dynamic_loss_apply (PINN branch), LossODE.evaluate, LossPDEStatio.evaluate, Loss
 The user equation is an uninterpreted residual map R(point, N, grad N, eq_params) -> R^k.
 """
 import itertools
+import dataclasses
 from contracts.common import *
 from contracts.lossutil import *
 from jinns.loss import (LossODE, LossPDEStatio, LossPDENonStatio, LossWeightsODE, LossWeightsPDEStatio,
@@ -34,8 +35,18 @@ def _all_keys(kind):
             "nonstatio": ["dyn_loss", "norm_loss", "boundary_loss", "observations", "initial_condition"]}[kind]
 
 
+def _markers(tree):
+    """concrete stand-ins of the same structure / shapes (the loss object is built outside any trace, as users build it)"""
+    return jax.tree_util.tree_map(lambda x: np.full(np.shape(x), 7.0), tree)
+
+
 class Setup:
-    """one static configuration of a single-network loss"""
+    """one static configuration of a single-network loss.
+    The loss object is constructed once, *outside* the traced function, with concrete stand-ins for the weights, the
+    initial condition and the normalisation data (the way users construct a loss); the symbolic values are then put
+    into the user-facing fields with eqx.tree_at (the way users re-weight an existing loss).  The terms must be those
+    of the fields the loss object carries."""
+    _proto = None
 
     def __init__(self, kind, B, k, m, wkind, on, d=1, tag="", share=None, obs_param=False):
         self.kind, self.B, self.k, self.m, self.wkind, self.on, self.d = kind, B, k, m, wkind, set(on), d
@@ -61,43 +72,63 @@ class Setup:
             inp += [Inp("ns", (self.S, d)), Inp("L", (), "pos")]
         return inp
 
-    def loss(self, a):
+    def _build(self, a):
         kind, on = self.kind, self.on
         params = self.net.params(a["th"], {"a": a["a"]})
         dyn = self.dyn if "dyn_loss" in on else None
         if kind == "ODE":
             lw = LossWeightsODE(dyn_loss=a["w"], initial_condition=a["wo"], observations=a["wo"])
-            loss = LossODE(u=self.net.u, dynamic_loss=dyn, loss_weights=lw, params=params,
+            return LossODE(u=self.net.u, dynamic_loss=dyn, loss_weights=lw, params=params,
                            initial_condition=(a["t0"], a["u0"]) if "initial_condition" in on else None)
+        common = dict(u=self.net.u, dynamic_loss=dyn, params=params)
+        if "norm_loss" in on:
+            common.update(norm_samples=a["ns"], norm_int_length=a["L"])
+        if "boundary_loss" in on:
+            fb = self.f_b
+            if kind == "statio":
+                common.update(omega_boundary_fun=lambda x: fb(x), omega_boundary_condition="dirichlet")
+            else:
+                common.update(omega_boundary_fun=lambda t, x: fb(jnp.concatenate([t, x])),
+                              omega_boundary_condition="dirichlet")
+        if kind == "statio":
+            lw = LossWeightsPDEStatio(dyn_loss=a["w"], norm_loss=a["wo"], boundary_loss=a["wo"], observations=a["wo"])
+            return LossPDEStatio(loss_weights=lw, **common)
+        lw = LossWeightsPDENonStatio(dyn_loss=a["w"], norm_loss=a["wo"], boundary_loss=a["wo"],
+                                     observations=a["wo"], initial_condition=a["wo"])
+        if "initial_condition" in on:
+            fic = self.f_ic
+            common.update(initial_condition_fun=lambda x: fic(x))
+        return LossPDENonStatio(loss_weights=lw, **common)
+
+    def prepare(self):
+        """construct the prototype loss with concrete stand-ins (call before tracing)"""
+        ex = {i.name: np.full(tuple(i.shape), 7.0) for i in self.inputs()}
+        self._proto = self._build(ex)
+        return self
+
+    def loss(self, a):
+        kind, on = self.kind, self.on
+        params = self.net.params(a["th"], {"a": a["a"]})
+        if self._proto is None:
+            raise RuntimeError("Setup.prepare() must be called in build(), outside the traced function")
+        loss = self._proto
+        lwf = [f.name for f in dataclasses.fields(loss.loss_weights)]
+        vals = {"dyn_loss": a["w"]}
+        new_lw = type(loss.loss_weights)(**{f: vals.get(f, a["wo"]) for f in lwf})
+        loss = eqx.tree_at(lambda l: l.loss_weights, loss, new_lw)
+        if kind == "ODE":
+            if "initial_condition" in on:
+                loss = eqx.tree_at(lambda l: l.initial_condition, loss, (a["t0"], a["u0"]))
             batch = ODEBatch(temporal_batch=a["pts"])
         else:
-            common = dict(u=self.net.u, dynamic_loss=dyn, params=params)
             if "norm_loss" in on:
-                common.update(norm_samples=a["ns"], norm_int_length=a["L"])
+                loss = eqx.tree_at(lambda l: (l.norm_samples, l.norm_int_length), loss, (a["ns"], a["L"]))
+            border = None
             if "boundary_loss" in on:
-                fb = self.f_b
-                if kind == "statio":
-                    common.update(omega_boundary_fun=lambda x: fb(x), omega_boundary_condition="dirichlet")
-                else:
-                    common.update(omega_boundary_fun=lambda t, x: fb(jnp.concatenate([t, x])),
-                                  omega_boundary_condition="dirichlet")
+                border = jnp.stack([a["pts"][:1], a["pts"][:1] + 1.0], axis=-1) if (self.d == 1 or kind == "nonstatio") else None
             if kind == "statio":
-                lw = LossWeightsPDEStatio(dyn_loss=a["w"], norm_loss=a["wo"], boundary_loss=a["wo"], observations=a["wo"])
-                loss = LossPDEStatio(loss_weights=lw, **common)
-                border = None
-                if "boundary_loss" in on:
-                    border = jnp.stack([a["pts"][:1], a["pts"][:1] + 1.0], axis=-1) if self.d == 1 else None
                 batch = PDEStatioBatch(inside_batch=a["pts"], border_batch=border)
             else:
-                lw = LossWeightsPDENonStatio(dyn_loss=a["w"], norm_loss=a["wo"], boundary_loss=a["wo"],
-                                             observations=a["wo"], initial_condition=a["wo"])
-                if "initial_condition" in on:
-                    fic = self.f_ic
-                    common.update(initial_condition_fun=lambda x: fic(x))
-                loss = LossPDENonStatio(loss_weights=lw, **common)
-                border = None
-                if "boundary_loss" in on:
-                    border = jnp.stack([a["pts"][:1], a["pts"][:1] + 1.0], axis=-1)
                 batch = PDENonStatioBatch(times_x_inside_batch=a["pts"], times_x_border_batch=border)
         if "observations" in on:
             batch = eqx.tree_at(lambda b: b.obs_batch_dict, batch,
@@ -126,7 +157,7 @@ def evaluate_ob(kind, B, k, m, wkind, on, d=1, via_call=False, obs_param=False):
     on = tuple(sorted(on))
     tag = f"[{kind},B={B},k={k},m={m},w={wkind},d={d},on={'+'.join(on) or 'none'}{',observed_param' if obs_param else ''}]"
     def build():
-        S = Setup(kind, B, k, m, wkind, on, d, obs_param=obs_param)
+        S = Setup(kind, B, k, m, wkind, on, d, obs_param=obs_param).prepare()
         names = [i.name for i in S.inputs()]
         off = [t for t in _all_keys(kind) if t not in on]
         def fn(*args):
@@ -157,8 +188,8 @@ def evaluate_ob(kind, B, k, m, wkind, on, d=1, via_call=False, obs_param=False):
 def corollary(kind, B, k, wkind, which):
     tag = f"[{kind},B={B},k={k},w={wkind}]"
     def build():
-        S = Setup(kind, B, k, 1, wkind, ("dyn_loss",), 1, tag="c")
-        S1 = Setup(kind, B // 2, k, 1, wkind, ("dyn_loss",), 1, share=S)
+        S = Setup(kind, B, k, 1, wkind, ("dyn_loss",), 1, tag="c").prepare()
+        S1 = Setup(kind, B // 2, k, 1, wkind, ("dyn_loss",), 1, share=S).prepare()
         names = [i.name for i in S.inputs()] + ["lam"]
         def dyn_of(a):
             loss, params, batch = S.loss(a)
